@@ -207,6 +207,17 @@ Fixpoint levels_same_structure (l1 l2 : list obj) (checkmemory : bool) : bool :=
   | _, _ => false
   end.
 
+(* the extra test of hwloc_compare_levels_structure when the UPPER level is the one to remove (fix for
+   "memory children left with a complete cpuset outside their new parent's"): some parent has memory children
+   and a complete cpuset different from its single child's *)
+Fixpoint parent_memory_wider (l1 l2 : list obj) : bool :=
+  match l1, l2 with
+  | p :: t1, c :: t2 =>
+      (match omch p with [] => false | _ => negb (opt_bset_eqb (o_ccs (odata p)) (o_ccs (odata c))) end)
+      || parent_memory_wider t1 t2
+  | _, _ => false
+  end.
+
 Definition filt (filters : list N) (ty : N) : N := nthN filters ty HWLOC_TYPE_FILTER_KEEP_NONE.
 Definition prio (ty : N) : Z := nthN obj_type_priority ty 0%Z.
 
@@ -232,7 +243,7 @@ Definition merge_step (filters dm : list N) (ls : list (list obj)) (i : nat) (ro
         let both := rp0 && rc1 in
         let rp := if both then negb (prio ty2 <=? prio ty1)%Z else rp0 in
         let rc := if both then negb rp else rc1 in
-        if levels_same_structure l1 l2 (ty2 =? HWLOC_OBJ_PU)
+        if levels_same_structure l1 l2 (ty2 =? HWLOC_OBJ_PU) && negb (rp && parent_memory_wider l1 l2)
         then merge_tree (map oid l1) rc root
         else root
   | _, _ => root
